@@ -132,7 +132,8 @@ def uuSpec (mode : Nat) (name : List Nat) (hn : NameOk name) : StreamSpec LA.Uu.
       rcases hit with rfl | rfl
       · exact uuT1_ok
       · exact uuT2_ok,
-    tlOut := by intro it hit; simp at hit; rcases hit with rfl | rfl <;> rfl }
+    tlOut := by intro it hit; simp at hit; rcases hit with rfl | rfl <;> rfl,
+    dphData := rfl, tlEnd := rfl }
 
 
 /-! ### b64encode -/
@@ -216,6 +217,7 @@ def b64Spec (mode : Nat) (name : List Nat) (hn : NameOk name) : StreamSpec LA.B6
     tlText := by simp [text, Item.line, b64T, LA.B64.codec, b64Trailer],
     tlChain := ⟨rfl, trivial⟩,
     tlOk := by intro it hit; simp at hit; subst hit; exact b64T_ok,
-    tlOut := by intro it hit; simp at hit; subst hit; rfl }
+    tlOut := by intro it hit; simp at hit; subst hit; rfl,
+    dphData := rfl, tlEnd := rfl }
 
 end LA.UuRead
